@@ -278,7 +278,11 @@ func parseStrat(s string) (graph.TraversalStrategy, bool) {
 
 // ---------------------------------------------------------------- Exec
 
-const opTimeout = 20 * time.Second
+const opTimeout = 5 * time.Second
+
+// hangs counts ops that did not return; their goroutines keep spinning, so after a few of them the run
+// stops executing further cases (the hang is already recorded as a violation with a replay file)
+var hangs int
 
 // Exec runs one case on the real graph package and checks every answer against the oracles.
 func Exec(c hx.Case) hx.Result {
@@ -292,6 +296,9 @@ func Exec(c hx.Case) hx.Result {
 	tags := map[string]bool{}
 	var g *gobj
 	answered := false
+	if hangs >= 2 {
+		return res
+	}
 
 	for i, op := range c.Ops {
 		f := strings.Fields(op)
@@ -307,6 +314,7 @@ func Exec(c hx.Case) hx.Result {
 			res.Outs = append(res.Outs, "hang")
 			bad(i, "%s did not return within %v", op, opTimeout)
 			tags["hang"] = true
+			hangs++
 			break
 		}
 		if kind != "" {
